@@ -177,6 +177,7 @@ def _drive(spec: dict, kit: Kit) -> dict:
     deferred = base._Deferred()
     classes: set = set()
     changed = False
+    repeated = False
     current = dict(texts)
     for number, step in enumerate(spec["steps"]):
         level = step["level"]
@@ -200,10 +201,15 @@ def _drive(spec: dict, kit: Kit) -> dict:
                 mode = "record"
                 env["rid"] = change["value"][0]
                 env["variant"] = change["value"][1]
+            elif change["kind"] == "other_content":
+                mode = "other_content"
             else:
                 mode = kit.mutate(change, data, env)
         options = kit.options(spec, env)
-        fresh = kit.record(spec, env["rid"], env["variant"])
+        if mode == "other_content":     # same id, but one gene carries another name
+            fresh = kit.record(base._other_content(spec, change["value"]), env["rid"], env["variant"])
+        else:
+            fresh = kit.record(spec, env["rid"], env["variant"])
         where = {"step": number, "level": level, "from": step.get("src", "post"), "change": change}
         outcome = _regenerate(kit, level, data, fresh, options)
         classes.add(f"level_{level}")
@@ -213,6 +219,11 @@ def _drive(spec: dict, kit: Kit) -> dict:
                 continue
             again = outcome[1]
             text = base._dumps(again.to_json())
+            if mode == "other_content":
+                # refusal, or results that save exactly what was loaded - never a silent subset
+                base._compare_text("other_record_partly_reused", text, texts["pre"], where)
+                classes.add("other_content_not_consulted")
+                continue
             if mode == "strict":
                 raise Violation("changed_setting_reused", dict(where, returned=type(again).__name__))
             if mode == "record":
@@ -267,6 +278,10 @@ def _drive(spec: dict, kit: Kit) -> dict:
         unequal = kit.same_content(original, again)
         if unequal:
             raise Violation("content", dict(where, difference=unequal))
+        if not change and not repeated:
+            repeated = True
+            base._regenerate_again(lambda used: _regenerate(kit, level, used, kit.record(spec, env["rid"]), options),
+                                   data, pre_text, lambda results: base._dumps(results.to_json()), where, classes)
         applied = base._guard(lambda: kit.apply(again, fresh))[:2]
         if applied != applied0:
             raise Violation("apply_outcome", dict(where, original=applied0, regenerated=applied))
@@ -291,6 +306,11 @@ def _drive(spec: dict, kit: Kit) -> dict:
 def std_changes(schema_values: list, extra: list = ()) -> list:
     return [{"kind": "schema", "values": schema_values},
             {"kind": "record_id", "values": ["rec2", "rec1 ", "REC1"]}] + list(extra)
+
+
+def other_content(genes: list) -> dict:
+    """ the change 'same record id, but the gene with this index carries another name' """
+    return {"kind": "other_content", "values": list(range(len(genes)))}
 
 
 def history(levels: tuple, changes: list, change_odds: int = 2):
@@ -679,7 +699,7 @@ def t2pks_specs(draw) -> dict:
                               draw(st.sampled_from(evalues))])
         if blast:
             blast_hits[gene["name"]] = blast
-    steps = draw(history(LEVELS, std_changes([2, 4, 0, "3", "missing", None])))
+    steps = draw(history(LEVELS, std_changes([2, 4, 0, "3", "missing", None], [other_content(genes)])))
     return {"L": length, "genes": genes, "protoclusters": clusters, "hmm_hits": hmm_hits, "blast_hits": blast_hits,
             "rid": "rec1", "steps": steps}
 
@@ -788,7 +808,7 @@ def terpene_specs(draw) -> dict:
             hsps.append({"gene": gene["name"], "hit_id": name, "s": start, "e": start + span,
                          "ev": draw(st.sampled_from([1e-80, 3.5e-20, 1e-05])),
                          "sc": float(cutoff) + draw(st.sampled_from([-5.0, 0.0, 0.5, 60.25]))})
-    steps = draw(history(LEVELS, std_changes([0, 2, "1", "missing", None])))
+    steps = draw(history(LEVELS, std_changes([0, 2, "1", "missing", None], [other_content(genes)])))
     return {"L": length, "genes": genes, "protoclusters": clusters, "hsps": hsps, "rid": "rec1", "steps": steps}
 
 
@@ -871,7 +891,7 @@ def asf_specs(draw) -> dict:
         p450.append([index, 1, 9])
     spec["p450"] = p450
     spec["asf"] = [draw(st.integers(0, len(ASF_ALPHABET) - 1)), draw(st.integers(0, 3))]
-    spec["steps"] = draw(history(LEVELS, std_changes([0, 2, "1", "missing", None])))
+    spec["steps"] = draw(history(LEVELS, std_changes([0, 2, "1", "missing", None], [other_content(spec["genes"])])))
     return spec
 
 
@@ -1595,7 +1615,7 @@ def nrps_pks_specs(draw) -> dict:
     spec["products"] = draw(st.lists(st.sampled_from([["NRPS", "NRPS"], ["T1PKS", "PKS"], ["transAT-PKS", "PKS"],
                                                       ["NRPS-like", "NRPS"]]), min_size=1, max_size=2))
     spec["np"] = {"seed": draw(st.integers(0, 59))}
-    spec["steps"] = draw(history(LEVELS, std_changes([2, 4, 0, "3", "missing", None])))
+    spec["steps"] = draw(history(LEVELS, std_changes([2, 4, 0, "3", "missing", None], [other_content(spec["genes"])])))
     return spec
 
 
@@ -1704,7 +1724,7 @@ def genefunctions_specs(draw) -> dict:
                         "ev": draw(st.sampled_from([1e-50, 2e-09]))} for _ in range(draw(st.integers(1, 2)))]
     hits["mite"] = found
     subregions = [[0, length]] if draw(st.integers(0, 2)) else [[0, length // 2]]
-    steps = draw(history(LEVELS, std_changes([1, 3, 0, "2", "missing", None])))
+    steps = draw(history(LEVELS, std_changes([1, 3, 0, "2", "missing", None], [other_content(genes)])))
     return {"L": length, "genes": genes, "hits": hits, "subregions": subregions, "rid": "rec1", "steps": steps}
 
 
